@@ -15,6 +15,8 @@ pub use external::ExternalTransformation;
 pub(crate) use low_rank::LowRankMassMatrix;
 pub use low_rank::LowRankSettings;
 pub use transformation::Transformation;
+#[cfg(nuts_rs_verif)]
+pub use adapt::MassMatrixAdaptStrategy as VerifMassMatrixAdaptStrategy;
 
 #[cfg(test)]
 mod tests {
